@@ -109,6 +109,7 @@ func RunSeq(s *kernel.Sim, prof *Profile) *Env {
 	}
 	corruptRun := prof.Corruptions
 	outageRun := prof.KEKOutage && t.Bool(1, 2)
+	e.diskFaultRun = prof.DiskFaults && t.Bool(1, 2)
 	golden := ""
 	if prof.Golden && t.Bool(1, 3) {
 		golden = pickGolden(e)
@@ -287,7 +288,17 @@ func (e *Env) step(st *seqState, c *Caller, op model.Op, cor *Corruption, whoFau
 			}
 		}
 	}
+	diskFull := false
+	if e.Prof.DiskFaults && e.diskFaultRun && op.Kind.Mutating() && e.T.Bool(1, 5) {
+		// the disk is full for the duration of this call
+		diskFull = true
+		setFileSizeLimit(48)
+		e.S.Fault("disk-full-call")
+	}
 	res := e.Exec(c, op)
+	if diskFull {
+		setFileSizeLimit(0)
+	}
 	e.seqOp = nil
 	e.Sink.OnWrite, e.Sink.OnSync = nil, nil
 	hr := e.seqHTTP
@@ -498,6 +509,18 @@ func (e *Env) step(st *seqState, c *Caller, op model.Op, cor *Corruption, whoFau
 			st.deniedText[mop.Kind] = text
 			e.S.Probe("denied")
 		}
+		return
+	}
+
+	// ---- the disk was full: the call may fail, and then nothing changed ----
+	if diskFull && res.Class == model.OtherError {
+		if !unchanged {
+			e.fail("state", "%s: the call failed (%s) with the disk full but the database file changed", desc, res)
+		}
+		if got, err := e.Observe(); err != nil || got != e.Model.DumpVisible() {
+			e.fail("state", "%s: the call failed (%s) with the disk full but the served state changed (%v):\n got: %s\nwant: %s", desc, res, err, got, e.Model.DumpVisible())
+		}
+		e.S.Probe("failed-under-disk-full")
 		return
 	}
 
